@@ -431,6 +431,14 @@ def _main(mod, modname, prop, a, seed, pool, t0):
         return EXIT_ERROR
     agg = run_units(modname, tier, pool)
     extra = {}
+    # guard: the executor against CPython on the micro-program corpus (pyvc/selftest.py); a disagreement invalidates every verdict of this run
+    try:
+        from . import selftest
+        st_compared, st_skipped, st_bad = selftest.run()
+    except Exception as e:
+        st_compared, st_skipped, st_bad = 0, [], [f'self-test crashed: {type(e).__name__}: {e}']
+    for b in st_bad:
+        agg['errors'].append({'error': f'executor self-test (engine vs CPython) disagrees: {b}', 'traceback': ''})
     if hasattr(mod, 'extra_checks'):
         extra = mod.extra_checks(tier, seed, pool) or {}
         for k in ('obligations', 'discharged'):
@@ -527,6 +535,7 @@ def _main(mod, modname, prop, a, seed, pool, t0):
             'per_unit': agg['per_unit'], 'path_outcomes': agg['outcomes'],
             'bounded_parameters': {u.name: u.bounded for u in mod.UNITS if u.bounded},
             'bounded_obligations': extra.get('bounded', []),
+            'executor_selftest': {'micro_programs_compared_with_cpython': st_compared, 'refused_as_unsupported': len(st_skipped), 'disagreements': len(st_bad)},
             'undecided_clauses': list(getattr(mod, 'UNDECIDED_CLAUSES', [])),
             'canary': {'expected_sat_and_were': len(agg['canary_ok']), 'wrongly_proved': agg['canary_bad']},
             'crosscheck': {'inputs_compared': cc_total, 'disagreements': len(cc_bad)},
